@@ -321,6 +321,9 @@ func Replay(spec Spec, path []string) ([]Violation, error) {
 		}
 		c := Child(s, name)
 		found.Run(c)
+		if Verbose {
+			fmt.Printf("  %-40s accepted=%v outcome=%s\n", name, c.Accepted, c.Outcome)
+		}
 		for _, v := range c.viols {
 			v.Scenario = spec.Name()
 			out = append(out, v)
